@@ -44,7 +44,7 @@ def _check_grammar(family, holes, perm, maxlen) -> None:
         if parser is None:
             continue
         built += 1
-        for toks in G.all_token_strings(maxlen):
+        for toks in G.all_token_strings(maxlen, G.terms_of(g)):
             kind, val = G.parse_tokens(parser, toks)
             what = f"grammar [{G.describe(g)}] smart={smart} input {' '.join(toks)!r}"
             if kind == "tree":
